@@ -13,8 +13,20 @@ From YV Require Import Gen.ConcGen Conc.Interleave Conc.InterleaveProofs Conc.In
 Import ListNotations.
 Local Open Scope N_scope.
 
+(* The generated table of EVERY write to the engine epoch, HEARTBEAT_COUNTER
+   and a store's epoch deadline in lib/src: engine-wide writes occur only in
+   the heartbeat thread's loop, scanner-side code writes only its own store. *)
+Theorem clock_single_writer_ok : clock_single_writer = true.
+Proof. vm_compute. reflexivity. Qed.
+Print Assumptions clock_single_writer_ok.
+
 Section C13.
   Variable mix : N -> N -> N.      (* the private computation of a scan: any function *)
+
+  (* the model's "scanner-side code writes the engine-wide clock" switch, as the source says *)
+  Notation bump := (negb clock_single_writer).
+  Lemma bump_off : bump = false.
+  Proof. rewrite clock_single_writer_ok. reflexivity. Qed.
 
   (* NONINTERFERENCE: any number of threads, any programs (scans with or
      without timeouts, engine uses), any interleaving [tr] with the heartbeat:
@@ -23,66 +35,78 @@ Section C13.
      and a timeout only if that scan's own timeout (seconds) is at most the
      number of heartbeat transitions in the run. *)
   Theorem noninterference : forall progs tr s i p t,
-    exec mix tr (init progs) = Some s -> nth_error progs i = Some p -> nth_error (thrs s) i = Some t ->
+    exec mix bump tr (init progs) = Some s -> nth_error progs i = Some p -> nth_error (thrs s) i = Some t ->
     exists done rest,
       scans_of p = done ++ rest /\
       Forall2 (ok_result mix (hearts tr)) (rev (results t)) done /\
       (todo t = [] -> running t = None -> rest = []).
-  Proof. exact (InterleaveProofs.noninterference mix). Qed.
+  Proof. exact (InterleaveProofs.noninterference mix bump bump_off). Qed.
 
   (* the projection behind it: thread i's state after an interleaved run is
      its state after running alone under a clock that ticks where the
      heartbeat ticked between its own steps *)
   Theorem projection_on_one_scanner : forall tr s s' i t,
-    exec mix tr s = Some s' -> nth_error (thrs s) i = Some t ->
+    exec mix bump tr s = Some s' -> nth_error (thrs s) i = Some t ->
     exists t', nth_error (thrs s') i = Some t' /\
-               solo_run mix (erase i tr) (counter (sh s)) (epoch (sh s)) t = Some (counter (sh s'), epoch (sh s'), t').
-  Proof. exact (InterleaveProofs.projection mix). Qed.
+               solo_run mix bump (erase i tr) (counter (sh s)) (epoch (sh s)) t = Some (counter (sh s'), epoch (sh s'), t').
+  Proof. exact (InterleaveProofs.projection mix bump bump_off). Qed.
 
   (* A scanner without user timeout never times out in fewer than
      DEFAULT_SCAN_TIMEOUT (generated: one year of seconds) heartbeat
      transitions, whatever timeouts the other scanners have. *)
   Theorem no_timeout_without_deadline : forall progs tr s i p t,
-    exec mix tr (init progs) = Some s -> nth_error progs i = Some p -> nth_error (thrs s) i = Some t ->
+    exec mix bump tr (init progs) = Some s -> nth_error progs i = Some p -> nth_error (thrs s) i = Some t ->
     hearts tr < default_scan_timeout ->
     exists done rest,
       scans_of p = done ++ rest /\
       Forall2 (fun r sc => s_timeout sc = None -> r = RDone (pure_acc mix sc)) (rev (results t)) done.
-  Proof. exact (InterleaveProofs.no_timeout_without_deadline mix). Qed.
+  Proof. exact (InterleaveProofs.no_timeout_without_deadline mix bump bump_off). Qed.
 
   (* A scan returns its solo result as long as fewer heartbeats than ITS OWN
      timeout have elapsed: no other scanner's deadline matters. *)
   Theorem own_deadline_only : forall progs tr s i p t,
-    exec mix tr (init progs) = Some s -> nth_error progs i = Some p -> nth_error (thrs s) i = Some t ->
+    exec mix bump tr (init progs) = Some s -> nth_error progs i = Some p -> nth_error (thrs s) i = Some t ->
     exists done rest,
       scans_of p = done ++ rest /\
       Forall2 (fun r sc => hearts tr < timeout_secs (s_timeout sc) -> r = RDone (pure_acc mix sc)) (rev (results t)) done.
-  Proof. exact (InterleaveProofs.own_deadline_only mix). Qed.
+  Proof. exact (InterleaveProofs.own_deadline_only mix bump bump_off). Qed.
 
   (* Setting or expiring scanner j's deadline never changes scanner i: two runs
      with arbitrary other programs in which thread i has the same program and
      the heartbeat ticks at the same places relative to i's own steps leave
      thread i in the same state. *)
   Theorem deadline_is_private : forall progs1 progs2 tr1 tr2 s1 s2 i p t1 t2,
-    exec mix tr1 (init progs1) = Some s1 -> exec mix tr2 (init progs2) = Some s2 ->
+    exec mix bump tr1 (init progs1) = Some s1 -> exec mix bump tr2 (init progs2) = Some s2 ->
     nth_error progs1 i = Some p -> nth_error progs2 i = Some p ->
     erase i tr1 = erase i tr2 ->
     nth_error (thrs s1) i = Some t1 -> nth_error (thrs s2) i = Some t2 ->
     t1 = t2.
-  Proof. exact (InterleaveProofs.deadline_is_private mix). Qed.
+  Proof. exact (InterleaveProofs.deadline_is_private mix bump bump_off). Qed.
 
   (* First use: however many threads race, the engine is created at most once,
      at most one heartbeat thread is spawned, and the clock stands still until
      it is. *)
-  Theorem init_idempotent : forall progs tr s, exec mix tr (init progs) = Some s -> init_ok (sh s).
-  Proof. exact (InterleaveProofs.init_idempotent mix). Qed.
+  Theorem init_idempotent : forall progs tr s, exec mix bump tr (init progs) = Some s -> init_ok (sh s).
+  Proof. exact (InterleaveProofs.init_idempotent mix bump bump_off). Qed.
 
-  Theorem init_effect_idempotent : forall f s, apply_effect f (apply_effect f s) = apply_effect f s.
+  Theorem init_effect_idempotent : forall f s, f <> EBumpEpoch -> apply_effect f (apply_effect f s) = apply_effect f s.
   Proof. exact InterleaveProofs.apply_effect_idempotent. Qed.
 
+  (* the refutation in the conditional form that stays true: IF scanner-side
+     code wrote the engine-wide epoch (the switch the table above excludes),
+     a scanner timing out in its pattern search would make another scanner
+     time out although not a single heartbeat has elapsed *)
+  Theorem own_deadline_refuted_if_scanner_writes_epoch : forall b : bool,
+    b = true ->
+    exists progs tr s t sc,
+      exec mix b tr (init progs) = Some s /\ hearts tr = 0 /\
+      nth_error progs 1 = Some [IScan sc] /\ timeout_secs (s_timeout sc) = 1 /\
+      nth_error (thrs s) 1 = Some t /\ results t = [RTimeout].
+  Proof. exact (InterleaveProofs.own_deadline_refuted_if_scanner_writes_epoch mix). Qed.
+
   (* the scheduler used by the correspondence check only produces runs of the transition system *)
-  Theorem scheduler_sound : forall picks m s, exists tr, exec mix tr s = Some (run_schedule mix picks m s).
-  Proof. exact (InterleaveProofs.run_schedule_sound mix). Qed.
+  Theorem scheduler_sound : forall picks m s, exists tr, exec mix bump tr s = Some (run_schedule mix bump picks m s).
+  Proof. exact (InterleaveProofs.run_schedule_sound mix bump). Qed.
 End C13.
 
 Print Assumptions noninterference.
@@ -92,6 +116,7 @@ Print Assumptions own_deadline_only.
 Print Assumptions deadline_is_private.
 Print Assumptions init_idempotent.
 Print Assumptions init_effect_idempotent.
+Print Assumptions own_deadline_refuted_if_scanner_writes_epoch.
 Print Assumptions scheduler_sound.
 
 (* non-vacuity: three threads; thread 1 has a 1 s timeout on a scan with poll
@@ -107,7 +132,7 @@ Definition ex_trace : list label :=
   [LThread 2; LThread 0; LThread 1; LThread 1; LThread 0; LThread 1; LHeartE; LThread 0; LHeartC; LThread 0; LThread 1;
    LThread 0; LThread 0; LThread 0].
 Example c13_nonvacuous :
-  match exec mixf ex_trace (init ex_progs) with
+  match exec mixf false ex_trace (init ex_progs) with
   | Some s =>
       map (fun t => rev (results t)) (thrs s) = [[RDone (pure_acc mixf (mkScan None [BPollE; BWork 7; BPollC; BWork 9]))]; [RTimeout]; []]
       /\ hb_spawns (sh s) = 1%nat /\ engine_creations (sh s) = 1%nat /\ counter (sh s) = 1
